@@ -1,5 +1,5 @@
 import Cellml.Tie.Prelude
-import Cellml.Load.Connect
+import Cellml.C17.Model
 
 /-! # What the translated functions of parser.py see of the loader's state
 
@@ -77,5 +77,256 @@ def loaderView (par : ParentMap) (vt : VarTable) : LoaderView where
   getVar c v := match vt.lookup (c, v) with
     | some i => .ok ((c, v), i)
     | none => .error ⟨"KeyError"⟩
+
+/-! ## `Parser.transform_constants` -/
+
+/-- `Parser` / `Model` as seen by `transform_constants` -/
+structure ConstsView where
+  /-- `set(self.model.get_state_variables())` (only used for `in`) -/
+  stateVars : List VarObj
+  /-- `list(self.model.variables())`: the Variable objects in insertion order -/
+  variables : List VarObj
+
+/-- what `transform_constants` changes in the `Model` -/
+structure TCState where
+  /-- keys of `_var_definition_map` and `_ode_definition_map` (newest first) -/
+  defined : List VRef
+  /-- equations appended to `model.equations` by this function, in order -/
+  added : List FlatEq
+  /-- variables whose `initial_value` was set to `None`, in order -/
+  cleared : List VRef
+deriving Repr, DecidableEq
+
+/-- `self.model.create_quantity(var.initial_value, var.units)` (`float(None)` is a TypeError) -/
+def mkQuantity (q : Option Rat) (u : Container) : Except PyErr (Expr VRef FUnit) :=
+  match q with
+  | some q => .ok (.num q ([], u))
+  | none => .error ⟨"TypeError"⟩
+
+/-- `self.model.add_equation(sympy.Eq(var, value))` for a Variable left-hand side: `_check_duplicate_definitions`
+    (ValueError), then the definition is recorded and the equation appended -/
+def addEquationVar (st : TCState) (v : VarObj) (rhs : Expr VRef FUnit) : Except PyErr TCState :=
+  if st.defined.contains v.1 then .error ⟨"ValueError"⟩
+  else .ok { st with defined := v.1 :: st.defined, added := st.added ++ [⟨.var v.1, rhs⟩] }
+
+/-- `var.initial_value = None` -/
+def clearInit (st : TCState) (v : VarObj) : TCState := { st with cleared := st.cleared ++ [v.1] }
+
+/-- the state variables are the Variable objects of the table whose identity is in `states` -/
+def constsView (states : List VRef) (vt : VarTable) : ConstsView where
+  stateVars := vt.filter (fun p => states.contains p.1)
+  variables := vt
+
+/-! ## the closure `symbol_generator` of `Parser._add_maths` -/
+
+/-- `prefix = component_element.get('name') + SYMPY_SYMBOL_DELIMITER`: the component part of a flat name -/
+structure CompPrefix where
+  comp : String
+
+/-- `prefix + identifer`: the flat name `component$identifier`, which the models write as the pair (`Load.VRef`) -/
+instance : HAdd CompPrefix String VRef := ⟨fun p x => (p.comp, x)⟩
+
+/-- `str(x)` for `x` a Variable (its flat name) or `None` (the text `None`, which is not the name of any variable) -/
+abbrev PyName := Option VRef
+
+/-- `str(out)` -/
+def pyStr (o : Option VRef) : PyName := o
+
+/-- `connected_variable_mapping`: name of a connected (target) variable ↦ its source Variable, newest first
+    (`CState.mapping`) -/
+structure VMap where
+  entries : List (VRef × VRef)
+
+/-- `k in connected_variable_mapping`: the keys of the dict -/
+instance : Coe VMap (List PyName) := ⟨fun m => m.entries.map (fun e => some e.1)⟩
+
+/-- `connected_variable_mapping[k]` (KeyError when absent) -/
+def dictGet (m : VMap) (k : PyName) : Except PyErr (Option VRef) :=
+  match k with
+  | none => .error ⟨"KeyError"⟩
+  | some v =>
+    match m.entries.lookup v with
+    | some s => .ok (some s)
+    | none => .error ⟨"KeyError"⟩
+
+/-- `variable_to_symbol` of a component: the Variable objects of the table under their flat names -/
+def varToSymbol (vt : VarTable) (r : VRef) : Option VRef := (vt.lookup r).map (fun _ => r)
+
+/-! ## `Parser._add_relationships` / `Parser._handle_component_ref` -/
+
+/-- an XML element as the two functions see it: a `<group>` or a `<component_ref>` -/
+inductive Elem where
+  /-- `component`: `e.attrib.get('component')` (mandatory on `<component_ref>`, an `ident`: never empty);
+      `relationships`: the `relationship` attribute of every `<relationship_ref>` child (`e.findall(...)`);
+      `refs`: the `<component_ref>` children in document order (`e.findall(...)`) -/
+  | mk (component : String) (relationships : List (Option String)) (refs : List Elem)
+
+def Elem.component : Elem → String | .mk c _ _ => c
+def Elem.relationships : Elem → List (Option String) | .mk _ r _ => r
+def Elem.refs : Elem → List Elem | .mk _ _ r => r
+
+/-- the `<model>` element -/
+structure ModelElem where
+  /-- `model.findall(with_ns(XmlNs.CELLML, 'group'))` -/
+  groups : List Elem
+
+/-- `Parser` as seen by the two functions: the names in `self.components` -/
+structure RelView where
+  components : List String
+
+/-- the part of `self.components[...]` the two functions write: `parent` of every component that has one
+    (`Load.ParentMap`) and the `encapsulated` sets as (parent, child) pairs, newest first -/
+structure RelState where
+  par : ParentMap
+  enc : List (String × String)
+deriving Repr, DecidableEq
+
+/-- `self.components[p].add_encapsulated(c)`: KeyError when there is no component `p`, ValueError when `c` is already
+    in the set -/
+def addEncapsulated (self : RelView) (st : RelState) (p : Option String) (c : String) : Except PyErr RelState :=
+  match p with
+  | none => .error ⟨"KeyError"⟩
+  | some p =>
+    if !self.components.contains p then .error ⟨"KeyError"⟩
+    else if st.enc.contains (p, c) then .error ⟨"ValueError"⟩
+    else .ok { st with enc := (p, c) :: st.enc }
+
+/-- `self.components[c].set_parent(p)`: KeyError when there is no component `c`, ValueError when it has a parent -/
+def setParent (self : RelView) (st : RelState) (c : String) (p : Option String) : Except PyErr RelState :=
+  if !self.components.contains c then .error ⟨"KeyError"⟩
+  else if (st.par.lookup c).isSome then .error ⟨"ValueError"⟩
+  else match p with
+    | some p => .ok { st with par := (c, p) :: st.par }
+    | none => .ok st
+
+/-- `self.components[a].add_sibling(b)`: `_Component.siblings` is written here and read nowhere in cellmlmanip (only by
+    the `assert` of `add_sibling` itself); the models have no sibling sets. ASSUMPTION (argued in the report, not
+    proved): its KeyError / AssertionError cannot fire, because `set_parent` has succeeded for `a` in this very call. -/
+def noteSibling (st : RelState) (_a _b : String) : RelState := st
+
+/-- `itertools.product(xs, ys)` -/
+def pyProduct {α β : Type} (xs : List α) (ys : List β) : List (α × β) := xs.flatMap (fun a => ys.map (fun b => (a, b)))
+
+/-! ## `Parser._add_components` -/
+
+/-- a `<component>` element: what `Load.Comp` holds, and its `<reaction>` children
+    (`element.findall(with_ns(XmlNs.CELLML, 'reaction'))`) -/
+structure CompElem where
+  comp : Comp
+  reactions : List Unit
+
+/-- the `<model>` element: `model.findall(with_ns(XmlNs.CELLML, 'component'))` -/
+structure CompsElem where
+  components : List CompElem
+
+/-- `Parser` / `Model` as seen by `_add_components`: the unit store `self.model.units` -/
+structure CompsView where
+  ust : Units.Store
+
+/-- what `_add_components` / `_add_variables` write: the keys of `self.components` (newest first), the names and
+    cmeta ids the `Model` knows (`Load.checkVars`' accumulator) and the variables in the order they were added -/
+structure CompsState where
+  components : List String
+  acc : List VRef × List String
+  vt : VarTable
+
+/-- `self.components[name] = _Component(name)` -/
+def newComponent (st : CompsState) (name : String) : CompsState := { st with components := name :: st.components }
+
+/-- `self._add_variables(element)` — a LEAF of `_add_components`: what it raises is `Load.checkVars` (unit lookup,
+    then `Model.add_variable`: name clash, cmeta clash), what it records is `Load.entry` per `<variable>`;
+    returns `variable_to_symbol` (flat name ↦ Variable) -/
+def addVariables (self : CompsView) (st : CompsState) (e : CompElem) :
+    Except PyErr (List (VRef × VRef) × CompsState) :=
+  match checkVars self.ust e.comp.name e.comp.vars st.acc with
+  | .error err => .error ⟨err.className⟩
+  | .ok acc' => .ok (e.comp.vars.map (fun d => ((e.comp.name, d.name), (e.comp.name, d.name))),
+      { st with acc := acc', vt := st.vt ++ e.comp.vars.map (entry self.ust e.comp.name) })
+
+/-! ## `Parser.parse` -/
+
+/-- the parsed file (`etree.parse(...)`), its root `<model>` element -/
+structure XmlTree where
+  root : C17.FaultDoc
+
+/-- what `parse` builds up in `self` / `self.model`, stage by stage -/
+structure ParseState where
+  /-- after `_add_units`: the pint registry and the unit store -/
+  units : Option (Registry × Units.Store) := none
+  /-- after `_add_relationships`: `self.components[c].parent` -/
+  par : Option ParentMap := none
+  /-- after `_add_connections`: everything `Load.prepare` computes -/
+  loaded : Option Loaded := none
+  /-- after `_add_maths`: the variables that have a defining equation -/
+  defined : Option (List VRef) := none
+  /-- after `transform_constants`: the finished model -/
+  flat : Option Flat := none
+
+/-- the stages `parse` calls, as functions of the state (each is tied, or bound, separately) -/
+structure ParseView where
+  /-- `etree.parse(self.filepath, parser)` (an XML syntax error is outside the models) -/
+  readTree : Except PyErr XmlTree
+  /-- `self._validate(parser, tree)`: RELAX NG -/
+  validate : XmlTree → Except PyErr Unit
+  /-- `model_xml.findall('component/units')` -/
+  unitsInComponents : C17.FaultDoc → List Nat
+  /-- `self.model = Model(name, cmeta id, unit_store=unit_store)` -/
+  newModel : C17.FaultDoc → Option Unit → ParseState → ParseState
+  addUnits : C17.FaultDoc → ParseState → Except PyErr ParseState
+  addRdf : C17.FaultDoc → ParseState → Except PyErr ParseState
+  addComponents : C17.FaultDoc → ParseState → Except PyErr ParseState
+  addRelationships : C17.FaultDoc → ParseState → Except PyErr ParseState
+  addConnections : C17.FaultDoc → ParseState → Except PyErr ParseState
+  addMaths : ParseState → Except PyErr ParseState
+  transformConstants : ParseState → Except PyErr ParseState
+
+/-- a stage that needs something an earlier stage has not provided (cannot happen in the order of `parse`) -/
+def notReady {α : Type} : Except PyErr α := .error ⟨"AttributeError"⟩
+
+/-- error of a model stage as `load_model` shows it -/
+def stageErr {α : Type} (e : Err) : Except PyErr α := .error ⟨C17.className e⟩
+
+/-- the stages of the hand model `C17.loadFull` on the document `fd` -/
+def parseView (fd : C17.FaultDoc) : ParseView where
+  readTree := .ok ⟨fd⟩
+  validate t := if !C17.schemaVars t.root.doc then .error ⟨"ValueError"⟩ else .ok ()
+  unitsInComponents d := d.compUnits
+  newModel _ _ st := st
+  addUnits d st := match Units.addUnits 0 d.udefs with
+    | .error e => stageErr (C17.unitErr e)
+    | .ok u => .ok { st with units := some u }
+  addRdf _ st := .ok st
+  addComponents d st := match st.units with
+    | none => notReady
+    | some (_, ust) =>
+      match C17.reactionErr ust d with
+      | some e => stageErr e
+      | none => match checkComps ust d.doc.comps [] ([], d.doc.cmeta.toList) with
+        | .error e => stageErr e
+        | .ok _ => .ok st
+  addRelationships d st := match buildParents (d.doc.comps.map (·.name)) d.doc.encaps [] [] with
+    | .error e => stageErr e
+    | .ok par => .ok { st with par := some par }
+  addConnections d st := match st.units, st.par with
+    | some (reg, ust), some par =>
+      let vt := varTable ust d.doc.comps
+      match directAll (d.doc.comps.map (·.name)) par vt d.doc.conns with
+      | .error e => stageErr e
+      | .ok dl => match connect reg vt dl with
+        | .error e => stageErr e
+        | .ok cst => .ok { st with loaded := some ⟨reg, ust, vt, par, dl, cst⟩ }
+    | _, _ => notReady
+  addMaths st := match st.loaded with
+    | none => notReady
+    | some L => match fd.badEqs.head? with
+      | some b => stageErr (C17.badEqErr L fd.doc b)
+      | none => match checkMaths L.ust L.vt L.st fd.doc.comps (L.st.convs.map (·.target)) with
+        | .error e => stageErr e
+        | .ok defined => .ok { st with defined := some defined }
+  transformConstants st := match st.loaded, st.defined with
+    | some L, some defined => match checkConstants (L.states fd.doc) defined L.vt with
+      | .error e => stageErr e
+      | .ok () => .ok { st with flat := some (L.flat fd.doc) }
+    | _, _ => notReady
 
 end Cellml.Tie
